@@ -884,3 +884,59 @@ Proof.
       * destruct (Nat.eqb_spec i j); [congruence|]. unfold h1. rewrite get_upd.
         destruct (Nat.eqb_spec j p); [congruence|]. apply (or_node _ _ _ Hr j).
 Qed.
+
+(* ---- Remove (a file, an empty directory; the error cases) ------------------------------------------------------- *)
+Lemma may_delete_admin h u par victim isdir : us_admin u = true -> node_is_dir h par = true ->
+  may_delete h par victim isdir u =
+    if isdir then (if node_is_dir h victim then None else Some ENOTDIR)
+    else (if node_is_dir h victim then Some EISDIR else None).
+Proof.
+  intros Ha Hd. unfold may_delete. rewrite (kperm_dir_admin h u Ha par 3 Hd). unfold sticky_refuses. rewrite Ha.
+  cbn [negb andb]. rewrite andb_false_r. reflexivity.
+Qed.
+
+Theorem orefa_step_remove (o : ofs) (s : fsys) (sv : sview) (ps : list str) (c : str) :
+  ohyps s sv -> orel o s sv -> gcs (ps ++ [c]) -> length (ps ++ [c]) < WALK_FUEL ->
+  proj_res Linux (snd (o_remove o (abs_path (ps ++ [c])))) = snd (go_remove s sv (abs_path (ps ++ [c])))
+  /\ orel (fst (o_remove o (abs_path (ps ++ [c])))) (fst (go_remove s sv (abs_path (ps ++ [c])))) sv.
+Proof.
+  intros Hh Hr Hg Hl. pose proof Hg as Hg'. apply gcs_snoc_inv in Hg'. destruct Hg' as [Hps Hc].
+  pose proof (oh_admin _ _ Hh) as Hadm.
+  unfold o_remove, go_remove, k_unlink, k_rmdir.
+  rewrite (oabs_abs o s sv Hr _ Hg), (or_os _ _ _ Hr).
+  rewrite (klookup_par s sv Hh false ps c Hg Hl), (tpar_spec (f_heap s) ps (v_root (sv_view sv)) c).
+  rewrite (@abs_path_rpath (ps ++ [c])) by (destruct ps; discriminate).
+  rewrite (split_abs_rpath ps c) by (apply comp_ok_nosl; apply good_comp_ok'; exact Hc).
+  destruct (resolve4 o s sv Hh Hr ps c Hg) as [p px i x Ew Hp Hnp Hd El Hx Hnx|p px Ew Hp Hnp Hd El Hx|p px Ew Hp Hnp Hd Hx|Ew Hp Hx];
+    rewrite Hx, Ew.
+  - rewrite Hp, Hd, El. rewrite !(may_delete_admin _ _ p i _ Hadm Hd).
+    assert (Hip : i <> p) by (intros ->; exact (no_self_edge _ p c (oh_inv _ _ Hh) El)).
+    destruct (Nat.eqb_spec i p) as [E|_]; [congruence|].
+    rewrite (nrel_dir s sv Hh x i Hnx), (nrel_ch s sv Hh x i Hnx).
+    destruct (node_is_dir (f_heap s) i) eqn:Edi; cbn [andb].
+    + (* a directory *)
+      unfold dir_nonempty. rewrite children_get. destruct (get (f_heap s) i) as [[chi mi|? ? ? ?|? ?]|] eqn:Egi;
+        try (rewrite node_is_dir_get, Egi in Edi; discriminate).
+      cbn [node_children]. destruct chi as [|e chi].
+      * cbn [snd fst]. split; [reflexivity|].
+        eapply (orel_unlink o _ s _ sv ps c p i px x); try eassumption; try reflexivity.
+        rewrite children_get, Egi. reflexivity.
+      * cbn [snd fst N.eqb]. split; [reflexivity|exact Hr].
+    + (* a file *)
+      cbn [snd fst]. split; [reflexivity|].
+      assert (Hch : children (f_heap s) i = []) by (apply children_nondir; exact Edi).
+      eapply (orel_unlink o _ s _ sv ps c p i px x); try eassumption; try reflexivity.
+      cbn [with_heap f_heap]. unfold release.
+      assert (Hgi : get (remove_child (f_heap s) p c) i = get (f_heap s) i).
+      { unfold remove_child. destruct (get (f_heap s) p) as [[chp mp|? ? ? ?|? ?]|]; try reflexivity.
+        rewrite get_upd. destruct (Nat.eqb_spec i p); [congruence|reflexivity]. }
+      rewrite Hgi. destruct (get (f_heap s) i) as [[? ?|? ? ? ?|t m]|] eqn:Egi; try reflexivity.
+      exfalso. exact (oh_nosym _ _ Hh i t m Egi).
+  - rewrite Hd, El. cbn [snd fst N.eqb]. split; [|exact Hr].
+    rewrite (enf_rel o s sv Hh Hr _ ps c Hg), Ew, Hd. reflexivity.
+  - rewrite Hd. cbn [snd fst N.eqb]. split; [|exact Hr].
+    rewrite (enf_rel o s sv Hh Hr _ ps c Hg), Ew, Hd. reflexivity.
+  - cbn [snd fst]. split; [|exact Hr].
+    rewrite (enf_rel o s sv Hh Hr _ ps c Hg), Ew.
+    destruct (tfail_cases s ps (v_root (sv_view sv))) as [E|E]; rewrite E; reflexivity.
+Qed.
